@@ -29,9 +29,9 @@ impl Prop for C11 {
     }
     fn phases(&self, tier: Tier) -> Vec<Phase> {
         vec![
-            Phase::new("values", tier.pick(6000, 50_000)).min_cases(tier.pick(2000, 12_000)).timeouts(120, tier.pick(400, 3000)),
+            Phase::new("values", tier.pick(6000, 150_000)).min_cases(tier.pick(2000, 30_000)).timeouts(120, tier.pick(400, 3000)),
             Phase::new("mismatch-matrix", NTYPES as u64).exhaustive(true).min_cases(NTYPES as u64).timeouts(300, 900),
-            Phase::new("values-asan", tier.pick(500, 1200)).build(Build::Asan).min_cases(tier.pick(150, 300)).timeouts(240, tier.pick(400, 3000)),
+            Phase::new("values-asan", tier.pick(500, 2500)).build(Build::Asan).min_cases(tier.pick(150, 500)).timeouts(240, tier.pick(400, 3000)),
         ]
     }
     fn worker(&self, ctx: &WorkerCtx) -> Box<dyn Worker> {
